@@ -52,6 +52,12 @@ def run(tier, replay):
     with vlib.Scratch("c06") as sc:
         with ThreadPoolExecutor(max_workers=4) as ex:
             futs = [ex.submit(p_c07.one_config, i, n, kinds, sc, nsim, nfree, vlib.seed(), 4000, flavours) for i, (n, kinds, flavours) in enumerate(menu)]
+            # a quiet period is part of a history: connections, nothing for 35 s (thorough: 65 s and 200 s), then the probes
+            for j, secs in enumerate([35] if tier == "quick" else [65, 200]):
+                kinds_i = ["instant", "instant", "rdv", "rdv", "instant", "rdv", "rdv"]
+                flav_i = ["conn_ok", "conn_garbage", "probe", "probe", "conn_ok", "probe", "probe"]
+                menu.append((2, kinds_i, flav_i))
+                futs.append(ex.submit(p_c07.one_config, 900 + j, 2, kinds_i, sc, 2, 1, vlib.seed(), 4000, flav_i, ["--idle-after", 2, "--idle-ms", secs * 1000]))
             for fu in futs:
                 results.append(fu.result())
         verdict = vlib.Verdict("C06")
